@@ -456,7 +456,8 @@ def main():
         "assumptions": P.get("assumptions", []),
         "wall_s": round(time.time() - T0, 1), "violations": reported,
     }
-    json.dump(evidence, open(os.path.join(ROOT, "evidence", pid + ".json"), "w"), indent=1)
+    if not replay:      # a replay re-examines one recorded run; it is not a run of the check
+        json.dump(evidence, open(os.path.join(ROOT, "evidence", pid + ".json"), "w"), indent=1)
 
     if not a.keep and reported == 0 and not tool_errors:
         shutil.rmtree(work, ignore_errors=True)
